@@ -134,6 +134,15 @@ def run(ctx, chk):
                        detail="" if ok else "returns %s, total is %s" % (DR.fmt_term(pa.ret), DR.fmt_term(W) if W else 0))
     chk.floor("C07.window", "nested serializer/encoder calls", nwin, 60)
 
+    # (2b) 0 means "too small" and nothing else
+    import typestate as _ts
+    import serializer_rules as SR
+    H_, PA_, _IF, _ = ctx.typestate()
+    chk.rule("C07.total", "a serializer returns 0 only on a path where a nested encoder/serializer returned 0 or a comparison "
+                          "against buffer_size was decided (so with n >= size the result is not 0); a successful result is positive")
+    nt = SR.zero_only_on_short_buffer(chk, "C07.total", prog, eff, _ts.CallSites(prog, eff, cache, H_, PA_), encs)
+    chk.floor("C07.total", "serializer paths", nt, 60)
+
     # (3) size mirrors
     check_size(chk, prog, eff, cache)
 
